@@ -724,6 +724,18 @@ func (v Value) evaluateBreakContinue(labels []string) resultKind {
 	return resultReturn
 }
 
+// resultValue returns the value carried by a break, continue or return completion (8.9).
+func (v Value) resultValue() Value {
+	return v.value.(result).value
+}
+
+// withResultValue returns the completion with its value replaced.
+func (v Value) withResultValue(value Value) Value {
+	res := v.value.(result)
+	res.value = value
+	return toValue(res)
+}
+
 func (v Value) evaluateBreak(labels []string) resultKind {
 	result := v.value.(result)
 	if result.kind == resultBreak {
